@@ -10,7 +10,7 @@ from util import call, quiet
 
 REQUIRED_THEOREMS = ['Usid.C17.split_join', 'Usid.C17.layout', 'Usid.C17.no_overwrite', 'Usid.C17.oversize_skipped',
                      'Usid.C17.no_temp_left']
-RULE = ('[also: reference values stored as integers that end in zeros when printed] [also: double-precision values that need all 17 significant digits, compared bit for bit after parsing] [also: negative and fractional data values, file names with several dots / other extensions, the dataset in the root or three groups deep, float32 datasets around the 15 MiB gate, the tempfile default directory watched] generator datasets of integer-valued real data (int32 / float32 / float64), any dimension counts, sizes and '
+RULE = ('[also: a second export from the same dataset object] [also: reference values stored as integers that end in zeros when printed] [also: double-precision values that need all 17 significant digits, compared bit for bit after parsing] [also: negative and fractional data values, file names with several dots / other extensions, the dataset in the root or three groups deep, float32 datasets around the 15 MiB gate, the tempfile default directory watched] generator datasets of integer-valued real data (int32 / float32 / float64), any dimension counts, sizes and '
         'storage orders; default and explicit output paths (including one named temp.csv), pre-existing output files, '
         'a user file called temp.csv in the working directory, force in {F,T}, oversized (never written) datasets just above 15 MiB, between 15 and 16 MiB, at 16 MiB '
         'and beyond; the file-system model (written / skipped / refused, files afterwards) compared on every case; '
@@ -128,14 +128,26 @@ def run_impl(inp, work):
         if inp.get('view') == 'toggled':
             u.toggle_sorting()
         tempfile.tempdir = tmpdir          # scratch files made in the tempfile module's default directory are watched too
+        pos_desc = [str(x) for x in u.pos_dim_descriptors]
+        spec_desc = [str(x) for x in u.spec_dim_descriptors]
         try:
             r = call(u.to_csv, output_path=out_path, force=inp['force'])
         finally:
             tempfile.tempdir = None
-        pos_desc = [str(x) for x in u.pos_dim_descriptors]
-        spec_desc = [str(x) for x in u.spec_dim_descriptors]
-    after = listing()
-    res = {'bytes': nbytes, 'force': inp['force'], 'preexisting': inp['preexisting'], 'before': before, 'after': after, 'target': os.path.relpath(target, work), 'pos_desc': pos_desc, 'spec_desc': spec_desc}
+        desc_after = [[str(x) for x in u.pos_dim_descriptors], [str(x) for x in u.spec_dim_descriptors]]
+        after = listing()
+        # the same object exports once more (to another path): the export must not depend on what it exported before
+        second = None
+        if r[0] == 'ok' and r[1] is not None and not inp['oversize']:
+            p2 = os.path.join(work, 'second_export.csv')
+            r2 = call(u.to_csv, output_path=p2, force=True)
+            if r2[0] == 'ok' and r2[1] is not None and os.path.isfile(p2):
+                with open(p2, newline='') as fh:
+                    second = [row for row in csv.reader(fh)]
+            else:
+                second = {'err': str(r2[1])[:200]}
+    res = {'bytes': nbytes, 'force': inp['force'], 'preexisting': inp['preexisting'], 'before': before, 'after': after, 'target': os.path.relpath(target, work), 'pos_desc': pos_desc, 'spec_desc': spec_desc,
+           'desc_unchanged': desc_after == [pos_desc, spec_desc], 'second': second}
     if r[0] == 'err':
         res['outcome'] = {'err': r[1], 'cls': r[2]}
     elif r[1] is None:
@@ -233,6 +245,12 @@ def oracle(inp, obs):
     if not isinstance(o, dict) or 'wrote' not in o:
         fails.append('raises: to_csv raised / returned nothing for a valid request: %s' % (o,))
         return fails
+    if obs.get('desc_unchanged') is False:
+        fails.append('object-state: the dimension descriptors of the dataset object changed during the export')
+    if obs.get('second') is not None and 'table' in obs and obs['second'] != obs['table']:
+        fails.append('second-export: the same object exported a different table the second time (%s)'
+                     % (obs['second'] if isinstance(obs['second'], dict) else 'first differing row: %s'
+                        % next((i for i, (a, b) in enumerate(zip(obs['second'], obs['table'])) if a != b), 'length')))
     where = 'output named temp.csv' if inp['path'] == 'temp.csv' else 'other path'
     if o['wrote'] != target or not o['exists']:
         fails.append('returned-path (%s): the returned path %s does not name an existing file (target %s)'
